@@ -2,7 +2,7 @@
 # checks/c02/mutations.py).  "expect" is what the manual procedure printed for
 # the inputs stage alone: DETECTED, TESTS-FAIL (pinned tests already catch it),
 # NOT-A-VIOLATION (the statement does not forbid the change; the check must stay
-# silent) or SCHED-ONLY (needs overlapping Handle calls, left to ../sched).
+# silent).
 MUTATIONS = [
     # Sibling aliasing: derived handlers append into the parent's spare capacity.
     dict(name="c19-withattrs-no-clip", prop="C19", file="logutil/slogutil/jsonhybrid.go",
@@ -36,9 +36,11 @@ MUTATIONS = [
     dict(name="c19-no-buffer-reset", prop="C19", file="logutil/slogutil/jsonhybrid.go",
          tests=["./logutil/slogutil/"], expect="TESTS-FAIL",
          edits=[("	bufTextHdlr.reset()\n", "")]),
-    # The pooled text handler goes back to the pool before its buffer is encoded.
+    # The pooled text handler goes back to the pool before its buffer is encoded:
+    # needs overlapping Handle calls (the inputs stage is silent, as it must be);
+    # the pinned 1000-goroutine test catches it.
     dict(name="c19-put-before-encode", prop="C19", file="logutil/slogutil/jsonhybrid.go",
-         tests=["./logutil/slogutil/"], expect="SCHED-ONLY",
+         tests=["./logutil/slogutil/"], expect="TESTS-FAIL",
          edits=[("	defer h.bufTextPool.Put(bufTextHdlr)\n", ""),
                 ("	data := newJSONHybridMessage(r.Level, msg)\n",
                  "	data := newJSONHybridMessage(r.Level, msg)\n	h.bufTextPool.Put(bufTextHdlr)\n")]),
